@@ -19,7 +19,7 @@ for tp in sorted(glob.glob(os.path.join(wd, "*.trace.ndjson"))):
     c = collections.Counter(); ex = {}
     devs = re.findall(r'^<<\s*"DEV",\s*(\d+),\s*(.*?)>>\s*$', out, re.M | re.S)
     txt = out
-    for m in re.finditer(r'<<\s*"DEV",\s*(\d+),(.*?)(?=\n<<\s*"(?:DEV|KF)"|\nModel checking|\nError)', txt, re.S):
+    for m in re.finditer(r'<<\s*"WHY",\s*(\d+),(.*?)(?=\n<<|\nModel checking|\nError)', txt, re.S):
         ln = int(m.group(1)); why = " ".join(m.group(2).split())
         e = rows[ln - 1]
         kinds = tuple(k for k in ['result', 'next', 'leaves', 'inner node', 'empties', 'rejected call', 'observation crashed', 'proof'] if k in why)
